@@ -28,6 +28,9 @@ global lastcnt Int                         -- result of the last counter decreme
 global anydel Bool                         -- some Delete of the running Done removed an element (ghost)
 
 global vval IntArr                         -- reactive variable -> the value last stored by Set (ghost model of Variable[int])
+global trkiter Int                         -- the iteration of InheritFrom's loop in which the last tracker was created (ghost)
+global lasttrk Int                         -- the tracker created last (ghost)
+global lastapplied Int                     -- what the tracker of a source made of the source's last report (ghost)
 global lastcond Bool                       -- what the counter's condition said about the new input value (ghost)
 
 type evictionState
@@ -366,4 +369,32 @@ func sortedSet.addSorted$1
   ensures r0 != nil && fresh(r0) && r0.element == *element && r0.weight == 0 && r0.unsubscribeFromWeightUpdates == nil && r0.index == old(len((*s).sortedElements))
   ensures len((*s).sortedElements) == old(len((*s).sortedElements)) + 1 && (*s).sortedElements[r0.index] == r0 && inv(*s)
   ensures forall k Int :: 0 <= k && k < old(len((*s).sortedElements)) ==> (*s).sortedElements[k] == old((*s).sortedElements[k])
+
+-- ---------------------------------------------------------------------------------------------------------------
+-- DerivedSet.InheritFrom: every source gets a tracker set of its OWN (it turns the source's reports into the source's net
+-- contribution before the occurrence counts of the derived set see them), and the source's callback feeds exactly what
+-- that tracker made of the report into the derived set
+-- (assumed: subscribing - including the first report it delivers - changes reactive / ds objects only, which the ghost
+-- models stand for, not the subscriber's own Go variables)
+func ReadableSet.OnUpdate(src, callback, trig) (unsub)
+  callback callback(m)
+  modifies ghost(ds.smem), ghost(ds.salive), ghost(ds.madd), ghost(ds.mdel), ghost(ds.llen), ghost(ds.lseq), ghost(lastapplied)
+  ensures unsub != nil
+
+func derivedSet.InheritFrom
+  instantiate ElementType: int
+  requires s != nil && forall i Int :: 0 <= i && i < len(sources) ==> sources[i] != nil
+  modifies everything
+  ghost after call NewSet: lasttrk = result
+  ghost after call NewSet: trkiter = rangeindex
+  ghost before call ReadableSet.OnUpdate: assert sourceElements == lasttrk && trkiter == rangeindex        -- the tracker was created in this very iteration, for this source
+  loop 1 invariant forall i Int :: 0 <= i && i < len(sources) ==> sources[i] != nil
+
+func derivedSet.InheritFrom$1
+  instantiate ElementType: int
+  requires s != nil && *s != nil && sourceElements != nil && *sourceElements != nil && appliedMutations != nil
+  modifies everything
+  ghost before call Set.Apply: assert arg0 == *sourceElements && arg1 == appliedMutations
+  ghost after call Set.Apply: lastapplied = result
+  ghost before call derivedSet.inheritMutations: assert arg0 == *s && arg1 == lastapplied
 @*/
